@@ -8,7 +8,8 @@ C03_weight_finite C03_inf_iff C03_to_ith_ulong C03_to_ulong C03_to_ulongs C03_nr
 C03_nr_ulongs_last C03_compare C03_repr_first C03_repr_next C03_repr_last C03_repr_first_unset C03_repr_next_unset
 C03_repr_last_unset C03_repr_inf C03_repr_to_ith_ulong C03_repr_weight C03_repr_iszero C03_repr_isfull
 C03_repr_isequal C03_repr_intersects C03_repr_isincluded
-C03_compare_first C03_compare_inclusion C03_repr_compare C03_repr_compare_first C03_repr_compare_inclusion""".split()]
+C03_compare_first C03_compare_inclusion C03_repr_compare C03_repr_compare_first C03_repr_compare_inclusion
+C03_alias_or C03_alias_and C03_alias_andnot C03_alias_xor C03_alias_not""".split()]
 CHECK_MODULES = ["Hw.Props.C03"]
 TRUSTED = ["hwloc_ffsl = __builtin_ffsl and hwloc_weight_long = __builtin_popcountll are modelled by their specification (least set bit / number of set bits)"]
 ASSUMPTIONS = ["indexes and 64*ulongs_count below 2^31 (no C integer wrap); malloc never fails"]
